@@ -79,13 +79,19 @@ PROPS: Dict[str, Dict[str, Any]] = {
                          "mapStep_prov", "recordStep_prov", "unionStep_prov", "maybeStep_prov", "ItemsRun.sound",
                          "recLoop_to_run", "C05_union_invalid_inv"], "stream": "core", "opts": {"salt": "c14", "async_rate": 0.1},
             "quick_n": 10000, "thorough_n": 300000, "fields": ["out"]},
-    "C17": {"theorems": ["C17_scalar_fixed", "GateFix_none", "GateFix_default", "ProcsFix_nil", "ProcsFix_builtin",
-                         "stripWith_idem", "loopItems_fixed", "C17_list_fixed", "C17_utuple_fixed", "C17_none",
-                         "C17_isDict"],
-            "level_note": "proved: scalars (any coercer / processors under GateFix / ProcsFix, both discharged for the cases "
-                          "the property names), lists and uniform tuples given that the container predicates hold of the "
-                          "payload (the hypothesis of open finding D22) and the elements are fixed points; unions, "
-                          "n-tuples, sets, maps and records are decided by correspondence + oracle only",
+    "C17": {"theorems": ["C17_tree_partial", "C17_scalar_tree", "C17_union_fixed_partial", "C17_optional_fixed",
+                         "C17_ntuple_fixed", "D25_witness", "C17_scalar_fixed", "GateFix_none", "GateFix_default",
+                         "ProcsFix_nil", "ProcsFix_builtin", "stripWith_idem", "loopItems_fixed", "C17_list_fixed",
+                         "C17_utuple_fixed", "C17_none", "C17_isDict"],
+            "modules": ["KodaModel.Properties.C17", "KodaModel.Properties.C17Union", "KodaModel.Properties.C17Tree"],
+            "level_note": "proved: C17_tree_partial - for every tree of the fragment fix17 (scalars with no coercer and at most "
+                          "one built-in processor on strings, or their default coercer; equality / None / always-valid / "
+                          "is-dict validators; lists, uniform tuples and n-tuples without container predicates or object "
+                          "check; optionals, Maybe, user wrappers, Lazy through the environment; any depth), every input "
+                          "and fuel, Valid w implies that w is validated to Valid w.  Outside it: container predicates "
+                          "(open finding D22), unions (open finding D25: proved under the no-takeover hypothesis, "
+                          "C17_union_fixed_partial, with D25_witness showing the hypothesis is needed), sets, maps and "
+                          "records (correspondence + oracle only)",
             "stream": "core", "opts": {"salt": "c17", "async_rate": 0.1, "user_rate": 0.1},
             "quick_n": 8000, "thorough_n": 100000, "fields": ["out"]},
 }
